@@ -158,18 +158,16 @@ be_pair_transfer(struct bufferevent *src, struct bufferevent *dst,
 	evbuffer_unfreeze(src->output, 1);
 	evbuffer_unfreeze(dst->input, 0);
 
-	if (dst->wm_read.high) {
+	if (dst->wm_read.high && !ignore_wm) {
 		dst_size = evbuffer_get_length(dst->input);
 		if (dst_size < dst->wm_read.high) {
 			n = dst->wm_read.high - dst_size;
 			evbuffer_remove_buffer(src->output, dst->input, n);
 		} else {
-			if (!ignore_wm)
-				goto done;
-			n = evbuffer_get_length(src->output);
-			evbuffer_add_buffer(dst->input, src->output);
+			goto done;
 		}
 	} else {
+		/* no mark, or a flush that is meant to ignore it */
 		n = evbuffer_get_length(src->output);
 		evbuffer_add_buffer(dst->input, src->output);
 	}
